@@ -436,3 +436,53 @@ def ob_barrett_mod_n_mul(crate, N):
         return {"paths": len(live)}
     return run_obligation("L2_%s_mod_n_mul_barrett" % crate.replace("-", ""), ["%s::mod_n_mul" % crate], "all canonical a, b < N", body,
                           stubs=["u256_mul, u320_mul, u256_sub, u256_cmp -> exact integer statements (L1)"])
+
+
+# ------------------------------------------------------------------ Montgomery-form bookkeeping and constant-exponent power loops
+def ob_monomial(crate, tag, fname, inputs, rules, consts, expected, const_args=(), functions=None):
+    """Every value is a monomial  prod_i x_i^(e_i) * R^j  (R = 2^256 mod m) carried as Abs('mono', (e, j)).
+    rules: callee key -> 'montmul' (x*y*R^-1: exponents add, j = j1 + j2 - 1) or 'mul' (plain modular product: exponents add, j = j1 + j2).
+    consts: limb value -> j for the constants that are powers of R (checked numerically by the caller); inputs: list of (name, j).
+    expected: (dict name -> exponent, j). The loops are concrete (constant exponents), so the run is one path; the final comparison is a
+    solver query over the exponent vector (trivial, but taken from the executed MIR)."""
+    names = [n for n, _ in inputs]
+    def body(stats):
+        c = load_crate(crate)
+        ctx = Ctx()
+        dom = INT(); ex = Ex(c, dom, ctx)
+        def mono(v):
+            v = ex.load(v) if isinstance(v, Ref) else v
+            if isinstance(v, Abs) and v.kind == "mono":
+                return v.t
+            if isinstance(v, Agg) and len(v.f) == 4 and all(isinstance(x, Sc) and x.conc() for x in v.f):
+                raw = sum(x.v << (64 * i) for i, x in enumerate(v.f))
+                if raw in consts:
+                    return (tuple(0 for _ in names), consts[raw])
+                raise Unsupported("constant %x is not a known power of R" % raw)
+            raise Unsupported("not a monomial: %r" % (v,))
+        def rule(kind):
+            def s(ex_, argv):
+                (e1, j1), (e2, j2) = mono(argv[0]), mono(argv[1])
+                return Abs("mono", (tuple(a + b for a, b in zip(e1, e2)), j1 + j2 - (1 if kind == "montmul" else 0)))
+            return s
+        def sq(kind):
+            def s(ex_, argv):
+                e1, j1 = mono(argv[0])
+                return Abs("mono", (tuple(2 * a for a in e1), 2 * j1 - (1 if kind == "montmul" else 0)))
+            return s
+        ex.summaries = {}
+        for key, kind in rules.items():
+            ex.summaries[key] = sq(kind[:-3]) if kind.endswith("sqr") else rule(kind)
+        args = [Ref(Cell(Abs("mono", (tuple(1 if k == i else 0 for k in range(len(names))), j)), n)) for i, (n, j) in enumerate(inputs)]
+        args += [Ref(Cell(ex.const(cn), cn)) for cn in const_args]
+        r = ex.run_fn(c.find(fname), args)
+        e, j = mono(r)
+        E = [z3.Int("exp_%s" % n) for n in names]; J = z3.Int("rpow")
+        hy = [E[i] == e[i] for i in range(len(names))] + [J == j]
+        goal = z3.And([E[i] == expected[0].get(n, 0) for i, n in enumerate(names)] + [J == expected[1]])
+        discharge(stats, hy, goal, "%s = %s * R^%d (R = 2^256 mod m)" % (fname, " * ".join("%s^%s" % (n, ("%x" % x if x > 9 else str(x))) for n, x in expected[0].items()), expected[1]),
+                  {"rpow": J})
+        return {"mir_steps": ex.steps}
+    return run_obligation("L2_%s_%s" % (crate.replace("-", ""), tag), functions or ["%s::%s" % (crate.replace("-", "_"), fname)],
+                          "all inputs (monomial / Montgomery-form bookkeeping over the executed MIR; constant exponents)", body,
+                          stubs=["%s -> monomial arithmetic (their exactness: the L2 Montgomery / Barrett obligations)" % ", ".join(sorted(rules))])
